@@ -14,7 +14,12 @@ MANIFEST_ENTRY = dict(
          'checked by TLC to be in bounds; every SUBMIT/SUBMIT_BATCH put on a worker channel is logged and each task must be forwarded to '
          'exactly one worker; at the idle snapshot a server that manages workers directly must believe all idle with zero tasks. Programs '
          'vary batch sizes 1-6 against 1-4 workers and 1-3 managers, so WAITING messages cross SUBMIT_BATCH messages in flight; '
-         'assign_tasks\' random choices are scheduler choices.',
+         'assign_tasks\' random choices are scheduler choices. The idle clause is split: idle-workers (all workers believed idle - holds '
+         'with cancellations too) and task-count; every RESULT/UPDATE a worker puts on its channel is logged as the counterpart of the '
+         'forwarded tasks, so L1 tells a count left for a task the worker dropped unreported (the recorded finding, explained=true) from a '
+         'count kept for a task whose completion WAS reported (fresh violation). Families: line-level interleaving inside recv_incoming / '
+         '_add_task / _get_next_ready_task on 1-2 workers with a delay scheduler (read receipts), and client cancels steered to cross the '
+         'RESULT of the finished root (also as ClientCancel actions of Runtime.tla replayed into the real classes).',
     note='Trusted as for C07, plus the counter projection (wraps handle_message of the real server objects). The zero-at-idle clause applies '
          'only to flat topologies, as the statement says.',
     ref='DESIGN.md section 4 / C15',
